@@ -132,7 +132,7 @@ def effect (i : MInfo) (p c : Addr) (call : Call) (w : World) : Except Err World
     let w1 := claim w p
     .ok { w1 with shares := upd w1.shares p (w1.shares p - amt), unbonding := upd w1.unbonding p (w1.unbonding p + amt) }
   | .redelegate amt => if w.shares p < amt then .error .method else .ok (claim w p)
-  | .withdraw => .ok (claim w p)
+  | .withdraw => if w.shares p = 0 then .error .method else .ok (claim w p)   -- no delegation: nothing to withdraw
   | .approve sp s => .ok { w with allow := upd2 w.allow p sp s }
   | .transferShares to s => moveShares w p to s
   | .transferFromShares _ to s =>
